@@ -99,6 +99,8 @@ class C04(Property):
     def known(self, case, out, findings):
         if "explained=computed-length-above-parse-limit" in out and any(f["id"] == "F20" for f in findings):
             return "F20"
+        if "explained=timing-points-within-epsilon" in out and any(f["id"] == "F22" for f in findings):
+            return "F22"
         return None
 
     def is_nontrivial(self, case, impl_out):
